@@ -105,7 +105,9 @@ def regen(log):
             res['dropped_reason'] = open(os.path.join(B, 'build-full.err')).read()[:600]
         except OSError:
             res['dropped_reason'] = ''
-    if not os.path.exists(os.path.join(B, 'translator')):
+    tsrc = max(os.path.getmtime(os.path.join(V, 'translator', f)) for f in os.listdir(os.path.join(V, 'translator')))
+    tbin = os.path.join(B, 'translator')
+    if not os.path.exists(tbin) or os.path.getmtime(tbin) < tsrc:
         r = sh(['go', 'build', '-o', os.path.join(B, 'translator'), '.'], cwd=os.path.join(V, 'translator'), env=GOENV)
         if r.returncode != 0:
             res['ok'] = False
